@@ -40,6 +40,9 @@ func runC04(c *Ctx) {
 	r2 := c.Rule("R2", "lineStart is assigned after the whole line terminator", 4)
 	c04LineState(c, r2)
 	lexT := p.LookupType("lexer", "Lexer")
+	if lexT != nil {
+		c04CRLFOnce(c, r2, lexT)
+	}
 
 	// ---- R3 byte/rune pairing
 	r3 := c.Rule("R3", "the rune cursor is never advanced by a byte length", 10)
